@@ -23,6 +23,17 @@
    opn2_switchEmulator, opn2_setNumChips, opn2_setRunAtPcmRate, opn2_reset, opn2_openData (partialReset /
    LoadMIDI_post).  After the chips are built OPN2::reset writes register 0x22 (LFO state) to each chip.
 
+   Besides the chips an instance owns its SETTINGS and its MIDI channel state; nothing of it is process-global and nothing of
+   it may be inherited from the heap (a new instance starts from the documented defaults whatever lived there before):
+     cfg      the switches of the API that have no counterpart on a chip: soft panning (OPN2::m_softPanning: off after
+              opn2_init, written only by this instance's opn2_setSoftPanEnabled), full-range brightness, scale modulators,
+              volume model, LFO frequency, auto-arpeggio, channel allocation mode.  They survive every rebuild of the chips
+              (OPN2::reset does not touch them) and end with opn2_close.
+     pan      controller 10 of the 16 real-time MIDI channels (64 after opn2_init / opn2_reset / opn2_openData).
+   OPN2::setPan (every note start, every controller-10 change of a sounding note) turns them into the panning decision
+   PanWrite: soft panning off -> writePan(64) and the hard L/R output bits by thirds of the controller range, soft panning
+   on -> writePan(controller value) and both output bits.  It is part of what a call computes with (eff.pan).
+
    P1 (non-interference): what an instance's generate call computes with ("effective" values of the
        global cells it reads, plus what it latched from them earlier) equals what the same call computes
        in the solo run of that instance's own history.
@@ -50,7 +61,16 @@ Cells == {"nuked.chip_type", "np2.lfotable", "mame.tables", "mamefm.tables", "ge
 G0 == [ct |-> "ym3438",      \* static initialiser: ym3438_mode_readmode
        lt |-> -1,            \* lfotable: -1 = zero-initialised, 0 = ratio of the native rate, r = ratio of PCM rate r
        tab |-> {}]           \* table groups already built
+\* ---- settings and controllers: own history only
+Settings == {"softpan", "bright", "smod", "vmodel", "lfofreq", "arp", "alloc"}
+Cfg0 == [softpan |-> 0, bright |-> 0, smod |-> 0, vmodel |-> 0, lfofreq |-> -1, arp |-> 0, alloc |-> -1]     \* OPNMIDIplay::OPNMIDIplay, OPN2::OPN2
+Pan0 == [c \in 0..15 |-> 64]                                                                                \* MIDIchannel::resetAllControllers
+PanBits(v) == (IF v < 64 + 16 THEN 2 ELSE 0) + (IF v >= 64 - 16 THEN 1 ELSE 0)                              \* OPN_PANNING_LEFT 0x80, _RIGHT 0x40 (>> 6)
+PanWrite(soft, v) == IF soft # 0 THEN [pw |-> v, lr |-> 3] ELSE [pw |-> 64, lr |-> PanBits(v)]
+
 Inst0 == [alive |-> FALSE, emu |-> 0, rate |-> 0, pcm |-> FALSE, lfo |-> FALSE,
+          cfg |-> Cfg0,      \* the API switches of this instance
+          pan |-> Pan0,      \* controller 10 per real-time MIDI channel; -1 = not known to the model (a song played in between)
           ct |-> "-",        \* per-instance chip type (only used with FixChipType)
           lfod |-> -2,       \* LFO step latched at the last register-0x22 write: -2 = LFO off
           taint |-> {}]      \* cells whose foreign value went into the chips' state (resampler history, phase) by an earlier
@@ -90,8 +110,17 @@ GenAcc(I) ==
          [] I.emu = EMU_NP2 -> {<<"np2.tables", "R">>}
          [] OTHER -> {}
 Eff(g, I) == [ct |-> IF I.emu \in {EMU_NUKED3438, EMU_NUKED2612} THEN (IF FixChipType THEN I.ct ELSE g.ct) ELSE "-",
-              lfod |-> IF I.emu = EMU_NP2 THEN I.lfod ELSE -2]
-NoEff == [ct |-> "-", lfod |-> -2]
+              lfod |-> IF I.emu = EMU_NP2 THEN I.lfod ELSE -2,
+              pan |-> {}]
+NoEff == [ct |-> "-", lfod |-> -2, pan |-> {}]
+\* the panning decisions a call of instance I may make (any sounding note may be re-panned by an evacuation / arpeggio step)
+PanKnown(I) == \A c \in DOMAIN I.pan : I.pan[c] >= 0
+PanLaw(I) == { PanWrite(I.cfg.softpan, I.pan[c]) : c \in DOMAIN I.pan }
+\* register 0x22 (OPN2::commitLFOSetup) on the existing chips: opn2_setLfoEnabled, opn2_setLfoFrequency
+LfoCommit(g, I, on) ==
+  IF I.emu = EMU_NP2 /\ ~FixLfoTable
+  THEN [g |-> g, inst |-> [I EXCEPT !.lfo = on, !.lfod = IF on THEN g.lt ELSE -2], acc |-> {<<"np2.lfotable", "R">>}, eff |-> NoEff]
+  ELSE [g |-> g, inst |-> [I EXCEPT !.lfo = on, !.lfod = IF on /\ I.emu = EMU_NP2 THEN LtKey(I) ELSE -2], acc |-> {}, eff |-> NoEff]
 
 \* ---- one API call of instance I in a world with globals g.  ev.e is the call, other fields its arguments.
 Local(g, I, ev) ==
@@ -102,15 +131,23 @@ Local(g, I, ev) ==
          IN [g |-> b.g, inst |-> b.inst, acc |-> a.acc \cup b.acc, eff |-> NoEff]
     [] ev.e = "Switch" -> LET b == ChipInit(g, [I EXCEPT !.emu = ev.emu]) IN [g |-> b.g, inst |-> b.inst, acc |-> b.acc, eff |-> NoEff]
     [] ev.e = "Pcm" -> LET b == ChipInit(g, [I EXCEPT !.pcm = (ev.v # 0)]) IN [g |-> b.g, inst |-> b.inst, acc |-> b.acc, eff |-> NoEff]
-    [] ev.e \in {"Chips", "Reset", "Load", "Fam"} -> LET b == ChipInit(g, I) IN [g |-> b.g, inst |-> b.inst, acc |-> b.acc, eff |-> NoEff]
-    [] ev.e = "Lfo" ->      \* opn2_setLfoEnabled -> commitLFOSetup: register 0x22 on the existing chips
-         LET on == ev.v # 0 IN
-         IF I.emu = EMU_NP2 /\ ~FixLfoTable
-         THEN [g |-> g, inst |-> [I EXCEPT !.lfo = on, !.lfod = IF on THEN g.lt ELSE -2], acc |-> {<<"np2.lfotable", "R">>}, eff |-> NoEff]
-         ELSE [g |-> g, inst |-> [I EXCEPT !.lfo = on, !.lfod = IF on /\ I.emu = EMU_NP2 THEN LtKey(I) ELSE -2], acc |-> {}, eff |-> NoEff]
-    [] ev.e \in {"Gen", "Play"} -> [g |-> g, inst |-> I, acc |-> GenAcc(I), eff |-> Eff(g, I)]
+    [] ev.e \in {"Chips", "Fam"} -> LET b == ChipInit(g, I) IN [g |-> b.g, inst |-> b.inst, acc |-> b.acc, eff |-> NoEff]
+    [] ev.e \in {"Reset", "Load"} ->      \* resetMIDI: the MIDI channels are built anew; the settings stay
+         LET b == ChipInit(g, [I EXCEPT !.pan = Pan0]) IN [g |-> b.g, inst |-> b.inst, acc |-> b.acc, eff |-> NoEff]
+    [] ev.e = "Lfo" -> LfoCommit(g, I, ev.v # 0)      \* opn2_setLfoEnabled -> commitLFOSetup: register 0x22 on the existing chips
+    [] ev.e = "Set" ->      \* a switch of this instance; nobody else's
+         LET J == [I EXCEPT !.cfg = [@ EXCEPT ![ev.s] = ev.v]] IN
+         IF ev.s = "lfofreq" THEN LfoCommit(g, J, J.lfo) ELSE [g |-> g, inst |-> J, acc |-> {}, eff |-> NoEff]
+    [] ev.e = "Ctl" ->      \* controller 10 re-pans the sounding notes of the channel; the other controllers stay inside the player
+         LET J == IF ev.c = 10 THEN [I EXCEPT !.pan[ev.ch] = ev.v] ELSE I IN
+         [g |-> g, inst |-> J, acc |-> {}, eff |-> [NoEff EXCEPT !.pan = PanLaw(J)]]
+    [] ev.e = "On" -> [g |-> g, inst |-> I, acc |-> {}, eff |-> [NoEff EXCEPT !.pan = PanLaw(I)]]      \* noteUpdate(Upd_All): setPan of every voice
+    [] ev.e = "Gen" -> [g |-> g, inst |-> I, acc |-> GenAcc(I), eff |-> [Eff(g, I) EXCEPT !.pan = PanLaw(I)]]
+    [] ev.e = "Play" ->     \* the song has its own controllers and may reset all of them (loop, system exclusive): a channel away
+                            \* from the centre is not known afterwards
+         [g |-> g, inst |-> [I EXCEPT !.pan = [c \in DOMAIN @ |-> IF @[c] = 64 THEN 64 ELSE -1]], acc |-> GenAcc(I), eff |-> Eff(g, I)]
     [] ev.e = "Close" -> [g |-> g, inst |-> Inst0, acc |-> {}, eff |-> NoEff]
-    [] OTHER -> [g |-> g, inst |-> I, acc |-> {}, eff |-> NoEff]       \* On / Off / Panic: register writes only
+    [] OTHER -> [g |-> g, inst |-> I, acc |-> {}, eff |-> NoEff]       \* Off / Bend / Panic: register writes only
 
 \* ---- N instances in one process, each paired with the solo world of its own history
 S0(N) == [inst |-> [i \in 1..N |-> Inst0], g |-> G0,
@@ -124,7 +161,7 @@ Step(S, ev) ==
       s == Local(S.solo[i].g, S.solo[i].inst, ev)
       now == (IF w.eff.ct # s.eff.ct THEN {"nuked-chip_type"} ELSE {}) \cup (IF w.eff.lfod # s.eff.lfod THEN {"np2-lfotable"} ELSE {})
       audio == ev.e \in {"Gen", "Play"}
-      diag == IF audio THEN now \cup S.inst[i].taint ELSE {}
+      diag == (IF audio THEN now \cup S.inst[i].taint ELSE {}) \cup (IF w.eff.pan # s.eff.pan THEN {"pan-setting"} ELSE {})
       taint == IF ev.e \in {"Create", "Switch", "Pcm", "Chips", "Reset", "Load", "Fam", "Close"} THEN {}      \* OPN2::reset builds new chips
                ELSE IF audio THEN diag ELSE S.inst[i].taint
   IN [inst |-> [S.inst EXCEPT ![i] = [w.inst EXCEPT !.taint = taint]], g |-> w.g,
